@@ -162,18 +162,21 @@ Qed.
    TEMPERATURE: what the reader makes of the first rn records of a readable file
    ====================================================================================== *)
 Definition t_post (rows cols : Z) (rws : list (list Z)) (records rxc : Z) : result tview :=
-  let i := Z.of_nat (fd_or_last rws) in
-  if i =? 0 then Err else
-  let lays := i - 1 in
-  let tsteps := records / i in
-  if negb (cols * rows =? rxc) then Err else
-  if negb (tsteps * (lays + 1) =? records) then Err else
-  if negb (markers_ok rws) then Err else
-  let groups := group (Z.to_nat tsteps) (Z.to_nat i) rws in
-  Ok {| tv_nx := cols; tv_ny := rows; tv_nz := lays; tv_ntimes := tsteps;
-        tv_stamps := map (fun g => row_stamp (hd [] g)) groups;
-        tv_surf := map (fun g => row_cells (rows * cols) (hd [] g)) groups;
-        tv_air := map (fun g => map (row_cells (rows * cols)) (tl g)) groups |}.
+  match fd_strict rws with
+  | None => Err
+  | Some ni =>
+    let i := Z.of_nat ni in
+    let lays := i - 1 in
+    let tsteps := records / i in
+    if negb (cols * rows =? rxc) then Err else
+    if negb (tsteps * (lays + 1) =? records) then Err else
+    if negb (markers_ok rws) then Err else
+    let groups := group (Z.to_nat tsteps) ni rws in
+    Ok {| tv_nx := cols; tv_ny := rows; tv_nz := lays; tv_ntimes := tsteps;
+          tv_stamps := map (fun g => row_stamp (hd [] g)) groups;
+          tv_surf := map (fun g => row_cells (rows * cols) (hd [] g)) groups;
+          tv_air := map (fun g => map (row_cells (rows * cols)) (tl g)) groups |}
+  end.
 
 Lemma t_mm_read_unfold rows cols ws size :
   t_mm_read rows cols ws size =
@@ -196,10 +199,15 @@ Proof.
   destruct (rn <=? Z.to_nat (o_nz c))%nat; [|reflexivity]. rewrite firstn_length. lia.
 Qed.
 
-Definition t_fab_view (c : one3d) (s0 : ostep) : tview :=
-  {| tv_nx := o_nx c; tv_ny := o_ny c; tv_nz := 0; tv_ntimes := 2;
-     tv_stamps := [os_stamp s0; os_stamp s0];
-     tv_surf := [nth 0 (os_lays s0) []; nth 1 (os_lays s0) []]; tv_air := [[]; []] |}.
+Lemma fd_strict_rows c (W : o_wf c = true) s0 s1 rest (Es : o_steps c = s0 :: s1 :: rest)
+      (Hd : stamp_eqb (os_stamp s0) (os_stamp s1) = false) rn :
+  (1 <= rn <= length (o_rows c))%nat ->
+  fd_strict (firstn rn (o_rows c)) = if (rn <=? Z.to_nat (o_nz c))%nat then None else Some (Z.to_nat (o_nz c)).
+Proof.
+  intros Hrn. destruct (firstn_rows_stamps c W s0 s1 rest Es Hd rn Hrn) as (r0 & T & E & St & Fd).
+  unfold fd_strict. rewrite E. rewrite St. rewrite <- E. exact Fd.
+Qed.
+
 Definition t_good_view (c : one3d) (k : nat) : tview :=
   {| tv_nx := o_nx c; tv_ny := o_ny c; tv_nz := o_nz c - 1; tv_ntimes := Z.of_nat k;
      tv_stamps := map os_stamp (firstn k (o_steps c));
@@ -210,67 +218,43 @@ Lemma t_post_rows c (W : o_wf c = true) s0 s1 rest (Es : o_steps c = s0 :: s1 ::
       (Hd : stamp_eqb (os_stamp s0) (os_stamp s1) = false) rn :
   2 <= o_nz c -> (1 <= rn <= length (o_rows c))%nat ->
   t_post (o_ny c) (o_nx c) (firstn rn (o_rows c)) (Z.of_nat rn) (o_nx c * o_ny c) =
-  if (rn =? 1)%nat then Err else if (rn =? 2)%nat then Ok (t_fab_view c s0)
-  else if (rn <=? Z.to_nat (o_nz c))%nat then Err
+  if (rn <=? Z.to_nat (o_nz c))%nat then Err
   else if Z.of_nat rn mod o_nz c =? 0 then Ok (t_good_view c (Z.to_nat (Z.of_nat rn / o_nz c))) else Err.
 Proof.
-  intros Hm Hrn. unfold t_post. rewrite (fd_or_last_rows c W s0 s1 rest Es Hd rn Hrn).
-  rewrite Z.eqb_refl, markers_ok_firstn. cbn [negb].
+  intros Hm Hrn. unfold t_post. rewrite (fd_strict_rows c W s0 s1 rest Es Hd rn Hrn).
   pose proof (steps_ok c W) as Hok.
-  destruct (rn <=? Z.to_nat (o_nz c))%nat eqn:Hle.
-  - apply Nat.leb_le in Hle.
-    destruct (rn =? 1)%nat eqn:R1; [apply Nat.eqb_eq in R1; subst rn; reflexivity|]. apply Nat.eqb_neq in R1.
-    replace (Z.of_nat (rn - 1) =? 0) with false by lia.
-    destruct (rn =? 2)%nat eqn:R2.
-    + apply Nat.eqb_eq in R2. subst rn. cbn [Nat.sub]. change (Z.of_nat 2) with 2. change (2 / Z.of_nat 1) with 2.
-      change (Z.of_nat 1 - 1) with 0. cbn [Z.add Z.mul Z.eqb Pos.eqb negb].
-      change (Z.to_nat 2) with 2%nat. change (Z.to_nat (Z.of_nat 1)) with 1%nat.
-      (* the first two rows: surface record and first layer record of step 0 *)
-      rewrite Es in Hok. pose proof (Forall_inv Hok) as Ok0. pose proof Ok0 as [L0 _].
-      destruct (os_lays s0) as [|l0 [|l1 ls]] eqn:El; try (cbn in L0; lia).
-      assert (E2 : firstn 2 (o_rows c) = [frame1 (met_rec (os_time s0) (os_date s0) l0); frame1 (met_rec (os_time s0) (os_date s0) l1)]).
-      { unfold o_rows. rewrite Es. cbn [map concat]. unfold step_rows at 1. rewrite El. reflexivity. }
-      rewrite E2. cbn [group firstn skipn map hd tl].
-      destruct (row_facts c W s0 l0 Ok0 ltac:(rewrite El; left; reflexivity)) as (_ & S0 & C0).
-      destruct (row_facts c W s0 l1 Ok0 ltac:(rewrite El; right; left; reflexivity)) as (_ & S1 & C1).
-      cbn zeta in S0, C0, S1, C1. rewrite S0, S1, C0, C1. unfold t_fab_view. rewrite El. reflexivity.
-    + apply Nat.eqb_neq in R2.
-      assert (Ed : Z.of_nat rn / Z.of_nat (rn - 1) = 1).
-      { symmetry. apply (Z.div_unique (Z.of_nat rn) (Z.of_nat (rn - 1)) 1 1); lia. }
-      rewrite Ed. replace (1 * (Z.of_nat (rn - 1) - 1 + 1) =? Z.of_nat rn) with false by lia. reflexivity.
-  - apply Nat.leb_gt in Hle.
-    replace (rn =? 1)%nat with false by (symmetry; apply Nat.eqb_neq; lia).
-    replace (rn =? 2)%nat with false by (symmetry; apply Nat.eqb_neq; lia).
-    rewrite Z2Nat.id by lia. replace (Z.of_nat (Z.to_nat (o_nz c)) =? 0) with false by lia.
-    replace (o_nz c =? 0) with false by lia.
-    replace (o_nz c - 1 + 1) with (o_nz c) by lia.
-    pose proof (Z.div_mod (Z.of_nat rn) (o_nz c) ltac:(lia)) as Edm.
-    pose proof (Z.mod_pos_bound (Z.of_nat rn) (o_nz c) ltac:(lia)) as Hmb.
-    destruct (Z.of_nat rn mod o_nz c =? 0) eqn:Hdv.
-    2:{ replace (Z.of_nat rn / o_nz c * o_nz c =? Z.of_nat rn) with false by nia. reflexivity. }
-    replace (Z.of_nat rn / o_nz c * o_nz c =? Z.of_nat rn) with true by nia. cbn [negb].
-    set (k := Z.to_nat (Z.of_nat rn / o_nz c)).
-    assert (Hk0 : 0 <= Z.of_nat rn / o_nz c) by (apply Z.div_pos; lia).
-    assert (Ek : rn = (k * Z.to_nat (o_nz c))%nat) by (unfold k; nia).
-    rewrite (o_rows_length c W) in Hrn.
-    assert (Hk : (k <= length (o_steps c))%nat) by nia.
-    assert (EG : group k (Z.to_nat (o_nz c)) (firstn rn (o_rows c)) = map step_rows (firstn k (o_steps c))).
-    { rewrite Ek. apply (firstn_rows_groups c W s0 s1 Hd k Hk). }
-    rewrite !EG.
-    assert (Hokk : Forall (ostep_ok c) (firstn k (o_steps c))) by (apply Forall_firstn, Hok).
-    unfold t_good_view. fold k. f_equal. f_equal.
-    + unfold k. lia.
-    + rewrite map_map. apply map_ext_in. intros s Hs. rewrite Forall_forall in Hokk.
-      apply (hd_step_rows' c s W (Hokk s Hs)).
-    + rewrite map_map. apply map_ext_in. intros s Hs. rewrite Forall_forall in Hokk.
-      destruct (step_rows_facts c W s (Hokk s Hs)) as (_ & _ & _ & Em).
-      destruct (step_rows s) as [|r R]; destruct (os_lays s) as [|l ls]; try discriminate;
-        [unfold row_cells; cbn [hd skipn]; apply firstn_nil|].
-      cbn [map hd] in *. injection Em as E1 _. exact E1.
-    + rewrite map_map. apply map_ext_in. intros s Hs. rewrite Forall_forall in Hokk.
-      destruct (step_rows_facts c W s (Hokk s Hs)) as (_ & _ & _ & Em).
-      destruct (step_rows s) as [|r R]; destruct (os_lays s) as [|l ls]; try discriminate; [reflexivity|].
-      cbn [map tl] in *. injection Em as _ E2. exact E2.
+  destruct (rn <=? Z.to_nat (o_nz c))%nat eqn:Hle; [reflexivity|].
+  rewrite Z.eqb_refl, markers_ok_firstn. cbn [negb].
+  apply Nat.leb_gt in Hle.
+  rewrite Z2Nat.id by lia.
+  replace (o_nz c - 1 + 1) with (o_nz c) by lia.
+  pose proof (Z.div_mod (Z.of_nat rn) (o_nz c) ltac:(lia)) as Edm.
+  pose proof (Z.mod_pos_bound (Z.of_nat rn) (o_nz c) ltac:(lia)) as Hmb.
+  destruct (Z.of_nat rn mod o_nz c =? 0) eqn:Hdv.
+  2:{ replace (Z.of_nat rn / o_nz c * o_nz c =? Z.of_nat rn) with false by nia. reflexivity. }
+  replace (Z.of_nat rn / o_nz c * o_nz c =? Z.of_nat rn) with true by nia. cbn [negb].
+  set (k := Z.to_nat (Z.of_nat rn / o_nz c)).
+  assert (Hk0 : 0 <= Z.of_nat rn / o_nz c) by (apply Z.div_pos; lia).
+  assert (Ek : rn = (k * Z.to_nat (o_nz c))%nat) by (unfold k; nia).
+  rewrite (o_rows_length c W) in Hrn.
+  assert (Hk : (k <= length (o_steps c))%nat) by nia.
+  assert (EG : group k (Z.to_nat (o_nz c)) (firstn rn (o_rows c)) = map step_rows (firstn k (o_steps c))).
+  { rewrite Ek. apply (firstn_rows_groups c W s0 s1 Hd k Hk). }
+  rewrite !EG.
+  assert (Hokk : Forall (ostep_ok c) (firstn k (o_steps c))) by (apply Forall_firstn, Hok).
+  unfold t_good_view. fold k. f_equal. f_equal.
+  + unfold k. lia.
+  + rewrite map_map. apply map_ext_in. intros s Hs. rewrite Forall_forall in Hokk.
+    apply (hd_step_rows' c s W (Hokk s Hs)).
+  + rewrite map_map. apply map_ext_in. intros s Hs. rewrite Forall_forall in Hokk.
+    destruct (step_rows_facts c W s (Hokk s Hs)) as (_ & _ & _ & Em).
+    destruct (step_rows s) as [|r R]; destruct (os_lays s) as [|l ls]; try discriminate;
+      [unfold row_cells; cbn [hd skipn]; apply firstn_nil|].
+    cbn [map hd] in *. injection Em as E1 _. exact E1.
+  + rewrite map_map. apply map_ext_in. intros s Hs. rewrite Forall_forall in Hokk.
+    destruct (step_rows_facts c W s (Hokk s Hs)) as (_ & _ & _ & Em).
+    destruct (step_rows s) as [|r R]; destruct (os_lays s) as [|l ls]; try discriminate; [reflexivity|].
+    cbn [map tl] in *. injection Em as _ E2. exact E2.
 Qed.
 
 Lemma t_good_view_eq tc k : (k <= length (t_steps tc))%nat ->
@@ -294,9 +278,8 @@ Qed.
 Lemma t_mm_read_size tc size : t_wf tc = true -> t_readable tc = true ->
   0 <= size <= 4 * Z.of_nat (length (t_enc tc)) ->
   t_mm_read (t_ny tc) (t_nx tc) (t_enc tc) size =
-  if size =? 8 * t_rec_words tc then Ok (t_two_record_view tc)
-  else if (size mod (4 * t_step_words tc) =? 0) && (2 <=? size / (4 * t_step_words tc))
-       then Ok (t_view_of (t_truncate_steps (Z.to_nat (size / (4 * t_step_words tc))) tc)) else Err.
+  if (size mod (4 * t_step_words tc) =? 0) && (2 <=? size / (4 * t_step_words tc))
+  then Ok (t_view_of (t_truncate_steps (Z.to_nat (size / (4 * t_step_words tc))) tc)) else Err.
 Proof.
   intros Wt Hr Hs. pose proof (t_to_o_wf tc Wt) as W.
   destruct (t_readable_inv tc Hr) as (ts0 & ts1 & trest & Ets & Hd).
@@ -306,22 +289,19 @@ Proof.
   assert (Es : o_steps o = s0 :: s1 :: map (fun s => OStep (ts_time s) (ts_date s) (ts_surf s :: ts_air s)) trest).
   { unfold o, t_to_o. cbn [o_steps]. rewrite Ets. reflexivity. }
   assert (Hd' : stamp_eqb (os_stamp s0) (os_stamp s1) = false) by exact Hd.
-  destruct (o_wf_parts o W) as (Hx & Hy & Hz & _).
   assert (Hm : 2 <= o_nz o).
   { unfold o, t_to_o. cbn [o_nz]. unfold t_wf in Wt. repeat (apply andb_true_iff in Wt; destruct Wt as [Wt ?]). lia. }
   pose proof (rec_words_pos o W) as Hri.
   unfold t_enc in *. fold o in Hs |- *.
   change (t_ny tc) with (o_ny o). change (t_nx tc) with (o_nx o).
-  change (t_rec_words tc) with (o_rec_words o).
   replace (t_step_words tc) with (o_nz o * o_rec_words o) by reflexivity.
   rewrite t_mm_read_unfold, th_rows_reduce; [|exact W|rewrite Es; discriminate|exact Hs].
   destruct (size_analysis (o_rec_words o) (o_nz o) size Hri ltac:(lia) ltac:(lia)) as [SA1 SA2]. cbn zeta in SA1, SA2.
   destruct ((size <=? 0) || negb (size mod 4 =? 0)) eqn:G.
-  { destruct (SA1 (or_introl eq_refl)) as [A B]. rewrite A. replace (size =? 8 * o_rec_words o) with false by lia. reflexivity. }
+  { destruct (SA1 (or_introl eq_refl)) as [A _]. rewrite A. reflexivity. }
   cbn zeta. set (r := size / 4 / o_rec_words o) in *.
   destruct (r * o_rec_words o =? size / 4) eqn:Er; cbn [negb].
-  2:{ destruct (SA1 (or_intror (conj eq_refl eq_refl))) as [A B]. rewrite A.
-      replace (size =? 8 * o_rec_words o) with false by lia. reflexivity. }
+  2:{ destruct (SA1 (or_intror (conj eq_refl eq_refl))) as [A _]. rewrite A. reflexivity. }
   destruct (SA2 eq_refl eq_refl) as (Hr1 & Esz & Emod & Ediv).
   rewrite Emod, Ediv.
   rewrite (o_enc_length o W) in Hs. unfold o_step_words in Hs.
@@ -329,19 +309,6 @@ Proof.
   rewrite <- (Z2Nat.id r) at 2 by lia.
   rewrite (t_post_rows o W s0 s1 _ Es Hd') by (try rewrite (o_rows_length o W); nia).
   rewrite Z2Nat.id by lia.
-  destruct (Z.to_nat r =? 1)%nat eqn:R1.
-  { apply Nat.eqb_eq in R1. assert (r = 1) by lia.
-    replace (size =? 8 * o_rec_words o) with false by nia.
-    replace (2 <=? r / o_nz o) with false; [rewrite andb_false_r; reflexivity|].
-    subst r. rewrite H. rewrite Z.div_small by lia. reflexivity. }
-  apply Nat.eqb_neq in R1.
-  destruct (Z.to_nat r =? 2)%nat eqn:R2.
-  { apply Nat.eqb_eq in R2. assert (r = 2) by lia.
-    replace (size =? 8 * o_rec_words o) with true by nia.
-    f_equal. unfold t_fab_view, t_two_record_view. rewrite Ets. unfold s0. cbn [os_lays os_stamp os_time os_date nth].
-    f_equal. f_equal. f_equal. destruct (ts_air ts0); reflexivity. }
-  apply Nat.eqb_neq in R2.
-  replace (size =? 8 * o_rec_words o) with false by nia.
   pose proof (Z.div_mod r (o_nz o) ltac:(lia)) as Edm.
   pose proof (Z.mod_pos_bound r (o_nz o) ltac:(lia)) as Hmb.
   destruct (Z.to_nat r <=? Z.to_nat (o_nz o))%nat eqn:Hle.
@@ -379,9 +346,6 @@ Lemma t_mm_read_k tc k : t_wf tc = true -> t_readable tc = true -> (2 <= k <= le
 Proof.
   intros W Hr Hk. destruct (t_step_words_pos tc W) as (Hsw & Hri).
   rewrite t_mm_read_size; try assumption; [|rewrite (t_enc_length tc W); nia].
-  assert (t_step_words tc >= 2 * t_rec_words tc).
-  { unfold t_step_words. unfold t_wf in W. repeat (apply andb_true_iff in W; destruct W as [W ?]). nia. }
-  replace (4 * (Z.of_nat k * t_step_words tc) =? 8 * t_rec_words tc) with false by nia.
   replace (4 * (Z.of_nat k * t_step_words tc)) with (Z.of_nat k * (4 * t_step_words tc)) by lia.
   rewrite Z.mod_mul, Z.div_mul by lia. cbn [Z.eqb andb].
   replace (2 <=? Z.of_nat k) with true by lia. rewrite Nat2Z.id. reflexivity.
@@ -396,53 +360,34 @@ Proof.
   unfold t_truncate_steps. rewrite firstn_all. destruct tc; reflexivity.
 Qed.
 
-(* the prefix holding exactly the first two records is accepted with fabricated content *)
-Lemma t_two_record_prefix tc : t_wf tc = true -> t_readable tc = true ->
-  t_mm_read (t_ny tc) (t_nx tc) (firstn (Z.to_nat (8 * t_rec_words tc / 4)) (t_enc tc)) (8 * t_rec_words tc)
-  = Ok (t_two_record_view tc).
-Proof.
-  intros W Hr. rewrite t_mm_read_local. destruct (t_step_words_pos tc W) as (Hsw & Hri).
-  rewrite t_mm_read_size; try assumption; [rewrite Z.eqb_refl; reflexivity|].
-  rewrite (t_enc_length tc W). destruct (t_readable_inv tc Hr) as (a & b & l & Es & _). rewrite Es. cbn [length].
-  assert (t_step_words tc >= 2 * t_rec_words tc).
-  { unfold t_step_words. unfold t_wf in W. repeat (apply andb_true_iff in W; destruct W as [W ?]). nia. }
-  nia.
-Qed.
-
-(* EVERY byte prefix: exact characterisation *)
+(* EVERY byte prefix: exact characterisation (reader as repaired by 9020b2c) *)
 Lemma t_mm_read_accepts_iff tc size v : t_wf tc = true -> t_readable tc = true ->
   0 <= size <= 4 * Z.of_nat (length (t_enc tc)) ->
   (t_mm_read (t_ny tc) (t_nx tc) (firstn (Z.to_nat (size / 4)) (t_enc tc)) size = Ok v <->
-   (size = 8 * t_rec_words tc /\ v = t_two_record_view tc) \/
    exists k, (2 <= k <= length (t_steps tc))%nat /\ size = 4 * (Z.of_nat k * t_step_words tc) /\
              v = t_view_of (t_truncate_steps k tc)).
 Proof.
   intros W Hr Hs. rewrite t_mm_read_local. destruct (t_step_words_pos tc W) as (Hsw & Hri).
   split.
   - rewrite t_mm_read_size by assumption.
-    destruct (size =? 8 * t_rec_words tc) eqn:E8; [intros H; left; split; [lia|congruence]|].
     destruct ((size mod (4 * t_step_words tc) =? 0) && (2 <=? size / (4 * t_step_words tc))) eqn:Hc; [|discriminate].
-    intros H. right. set (q := size / (4 * t_step_words tc)) in *.
+    intros H. set (q := size / (4 * t_step_words tc)) in *.
     assert (E : size = 4 * t_step_words tc * q) by (apply Z.div_exact; lia).
     exists (Z.to_nat q). rewrite (t_enc_length tc W) in Hs.
     split; [nia|]. split; [rewrite Z2Nat.id by lia; lia|congruence].
-  - intros [[E ->]|(k & Hk & E & ->)].
-    + rewrite t_mm_read_size by assumption. replace (size =? 8 * t_rec_words tc) with true by lia. reflexivity.
-    + rewrite E. apply t_mm_read_k; assumption.
+  - intros (k & Hk & E & ->). rewrite E. apply t_mm_read_k; assumption.
 Qed.
 
-(* ... hence on every OTHER cut the reader is safe *)
-Lemma t_mm_read_prefix_partial tc size : t_wf tc = true -> t_readable tc = true ->
-  0 <= size <= 4 * Z.of_nat (length (t_enc tc)) -> size <> 8 * t_rec_words tc ->
+Lemma t_mm_read_prefix tc size : t_wf tc = true -> t_readable tc = true ->
+  0 <= size <= 4 * Z.of_nat (length (t_enc tc)) ->
   t_mm_read (t_ny tc) (t_nx tc) (firstn (Z.to_nat (size / 4)) (t_enc tc)) size = Err \/
   exists k, (2 <= k <= length (t_steps tc))%nat /\ size = 4 * (Z.of_nat k * t_step_words tc) /\
             t_mm_read (t_ny tc) (t_nx tc) (firstn (Z.to_nat (size / 4)) (t_enc tc)) size
             = Ok (t_view_of (t_truncate_steps k tc)).
 Proof.
-  intros W Hr Hs Hne.
+  intros W Hr Hs.
   destruct (t_mm_read (t_ny tc) (t_nx tc) (firstn (Z.to_nat (size / 4)) (t_enc tc)) size) as [v|] eqn:E; [|left; reflexivity].
-  right. apply (t_mm_read_accepts_iff tc size v W Hr Hs) in E as [[E _]|(k & Hk & Ek & ->)]; [contradiction|].
-  exists k. auto.
+  right. apply (t_mm_read_accepts_iff tc size v W Hr Hs) in E as (k & Hk & Ek & ->). exists k. auto.
 Qed.
 
 (* ======================================================================================
